@@ -534,6 +534,27 @@ impl KeyIdMethod {
 	}
 }
 
+/// Checks that caller-supplied OID components can be DER encoded: at least two of them,
+/// the first at most 2, the second below 40 unless the first is 2 (X.690 section 8.19).
+fn check_oid(oid: &[u64]) -> Result<(), Error> {
+	match oid {
+		[first, second, ..]
+			if *first < 3 && (*first == 2 || *second < 40) && *second < u64::MAX - 80 =>
+		{
+			Ok(())
+		},
+		_ => Err(Error::InvalidOid),
+	}
+}
+
+/// Checks the custom attribute types of a distinguished name.
+fn check_name(dn: &DistinguishedName) -> Result<(), Error> {
+	dn.iter().try_for_each(|(ty, _)| match ty {
+		DnType::CustomDnType(oid) => check_oid(oid),
+		_ => Ok(()),
+	})
+}
+
 /// Checks that a caller-supplied string can be written as an IA5String (ASCII only).
 fn check_ia5(s: &str) -> Result<(), Error> {
 	Ia5String::try_from(s).map(|_| ())
